@@ -116,6 +116,8 @@ class Fn:
             s, k = self.expr(inner[0], env, want); return s, k
         if K in ('ExprWithCleanups', 'MaterializeTemporaryExpr', 'CXXBindTemporaryExpr', 'ConstantExpr'):
             return self.expr(inner[0], env, want)
+        if K == 'CXXConstructExpr' and len(inner) == 1:
+            return self.expr(inner[0], env, want)
         if K == 'IntegerLiteral':
             return n['value'], 'int'
         if K == 'CXXBoolLiteralExpr':
@@ -500,6 +502,17 @@ class Fn:
                 if hook:
                     r = hook(self, d, env, out, ind)
                     if r is not None: env = r; continue
+                qt0 = strip_type(d.get('type', {}).get('qualType', ''))
+                if qt0.startswith('std::vector<'):
+                    ak = 'arr_int'
+                    if init and init[0]['kind'] == 'CXXConstructExpr' and len(init[0].get('inner', [])) == 1:
+                        e, k = self.expr(init[0]['inner'][0], env)
+                        if k != ak: raise XlateError('vector copy of non-vector')
+                        out.add(ind, f'let {nm} := {e}')
+                    elif (not init) or (init[0]['kind'] == 'CXXConstructExpr' and not init[0].get('inner')):
+                        out.add(ind, f'let {nm} : Int → Int := {self.default_of(ak)}')
+                    else: raise XlateError('vector initialiser')
+                    env = self.bind(env, nm, ak); continue
                 if not init:
                     if tk in ('other', 'dep'):
                         ak = self.cfg.get('locals', {}).get(nm)
@@ -628,6 +641,8 @@ class Fn:
                 r = hook(self, s, env, out, ind)
                 if r is not None: return self.stmts(rest, r, out, ind, final)
             raise XlateError(f'call statement to {nm}')
+        if K == 'DoStmt' and not [c for c in s['inner'][0].get('inner', [])]:
+            return self.stmts(rest, env, out, ind, final)     # empty `do {} while (0)` (disabled verification hook macro)
         if K in ('CXXMemberCallExpr', 'CXXOperatorCallExpr', 'SwitchStmt', 'WhileStmt', 'DoStmt'):
             hook = self.cfg.get('stmt_hook')
             if hook:
@@ -747,3 +762,77 @@ class Fn:
         return text, allp
 
 def slugify(s): return re.sub(r'\W', '_', s)
+
+# ---------------------------------------------------------------------------------------------
+# switch over SortRule whose cases build a `SortEigenvalue<T, SortRule::X>` and swap it into an index vector
+def parse_sort_switch(fn, sw):
+    """returns (cond_node, groups=[(labels:[int], rule:int, family:'real'|'cplx', data_node, len_node, target_name)], default_throws:bool)"""
+    cond = sw['inner'][0]; body = sw['inner'][1]
+    groups = []; default_throws = False
+    for c in body.get('inner', []):
+        labels = []
+        x = c
+        if x['kind'] == 'DefaultStmt':
+            if not fn.escapes(x): raise XlateError('default case does not throw')
+            default_throws = True; continue
+        while x['kind'] == 'CaseStmt':
+            lab = x['inner'][0]
+            v = lab.get('value')
+            if v is None:
+                s_, _ = fn.expr(lab, {}); v = s_
+            labels.append(int(v)); x = x['inner'][1]
+        if not labels: raise XlateError('statement in switch outside a case: ' + c['kind'])
+        stmts = fn.body_list(x)
+        vd = None; swap_target = None; has_break = False
+        for st in stmts:
+            if st['kind'] == 'DeclStmt':
+                vd = st['inner'][0]
+            elif st['kind'] in ('CallExpr', 'CXXMemberCallExpr'):
+                nm, base = fn.callee_name(st['inner'][0])
+                if nm != 'swap': raise XlateError('unexpected call in case: ' + str(nm))
+                a = st['inner'][1]
+                while a['kind'] in ('ImplicitCastExpr', 'ParenExpr'): a = a['inner'][0]
+                swap_target = a['referencedDecl']['name']
+            elif st['kind'] == 'BreakStmt': has_break = True
+            else: raise XlateError('unexpected statement in case: ' + st['kind'])
+        if vd is None or swap_target is None or not has_break: raise XlateError('case is not `SortEigenvalue decl; swap; break`')
+        qt = vd['type']['qualType']
+        m = re.match(r'SortEigenvalue<\s*([\w:]+)\s*,\s*SortRule::(\w+)\s*>', qt)
+        if not m: raise XlateError('case variable type ' + qt)
+        fam = 'cplx' if m.group(1) in ('Complex',) else 'real'
+        rule = int(fn.tu.enum_value(m.group(2)))
+        args = vd['inner'][0]['inner'] if vd['inner'][0]['kind'] == 'ParenListExpr' else vd['inner'][0].get('inner', [])
+        d = args[0]
+        # <x>.data()
+        if d['kind'] == 'CallExpr' or d['kind'] == 'CXXMemberCallExpr':
+            nm, base = fn.callee_name(d['inner'][0])
+            if nm != 'data': raise XlateError('sort data argument')
+            d = base
+        groups.append((labels, rule, fam, d, args[1], swap_target))
+    if not default_throws: raise XlateError('switch without throwing default')
+    return cond, groups
+
+def sort_switch_hook(fn, s, env, out, ind, rest, final):
+    if s['kind'] != 'SwitchStmt': return None
+    cond, groups = parse_sort_switch(fn, s)
+    c, ck = fn.expr(cond, env)
+    fam = groups[0][2]; tgt = groups[0][5]
+    d, dk = fn.expr(groups[0][3], env); ln, lk = fn.expr(groups[0][4], env)
+    for g in groups:
+        d2, _ = fn.expr(g[3], env); l2, _ = fn.expr(g[4], env)
+        if (g[2], g[5], d2, l2) != (fam, tgt, d, ln): raise XlateError('cases of the switch sort different data')
+    chain = ''
+    for labels, rule, _, _, _, _ in groups:
+        cnd = ' || '.join(f'decide ({c} = {l})' for l in labels)
+        chain += f'if {cnd} then {rule} else '
+    chain += '(-1)'
+    out.add(ind, f'let rule : Int := {chain}')
+    out.add(ind, 'if decide (rule = -1) then')
+    out.add(ind + 2, 'Res.throw "std::invalid_argument"')
+    out.add(ind, 'else')
+    key = 'Gen.Sort.keyReal' if fam == 'real' else 'Gen.Sort.keyCplx'
+    out.add(ind + 2, f'let {tgt} := sortIdx (fun i j => Sc.lt ({key} rule ({d} i)) ({key} rule ({d} j))) {fn.atom(ln)}')
+    if not fn.cfg.get('throws'): raise XlateError('sort switch in non-throwing target')
+    env2 = fn.bind(env, tgt, 'arr_int')
+    fn.stmts(rest, env2, out, ind + 2, final)
+    return True
